@@ -83,10 +83,12 @@ func seekAndMux(
 			}
 			defer f.Close()
 
+			// a subsequent segment that cannot be parsed (for instance because the server
+			// was stopped abruptly while writing it) ends the playback instead of making it fail.
 			var init *fmp4.Init
 			init, _, err = segmentFMP4ReadHeader(f)
 			if err != nil {
-				return err
+				break
 			}
 
 			if !segmentFMP4CanBeConcatenated(prevInit, segmentEnd, init, seg.Start) {
